@@ -634,6 +634,8 @@ class Engine:
             return int(v)
         if isinstance(v, (int, float)):
             return v
+        if isinstance(v, PArr):
+            return v.e
         if isinstance(v, SV):
             if v.ty in (TInt, TReal):
                 return v.e
@@ -1304,6 +1306,10 @@ class Engine:
         load = _as_load(tgt)
         cur = self.eval(load, env)
         rhs = self.eval(node.value, env)
+        if isinstance(cur, PArr):
+            from .builtins import inplace_parr
+            inplace_parr(self, node.op.__class__.__name__, cur, rhs)     # numpy arrays are updated in place
+            return
         if isinstance(cur, Box):
             if inplace(self, node.op.__class__.__name__, cur, rhs):
                 return
